@@ -116,19 +116,20 @@ type ent struct {
 }
 
 type universe struct {
-	name    string
-	parents []int // parent index per block, -1 = parent never exists (gap)
-	keys    []string
-	txns    int
-	kinds   []int // value kind per block (cycled)
-	depth   int
+	name      string
+	parents   []int // parent index per block, -1 = parent never exists (gap)
+	keys      []string
+	txns      int
+	kinds     []int // value kind per block (cycled)
+	depth     int
+	directSet bool // BlockCache.Set called directly (not through a transaction cache)
 	// C07 switches
 	mutateValues bool
 	demandHits   bool
 }
 
 type event struct {
-	K    byte // s set, r remove, c txn commit, C block commit, g sc.Get, b bc.Get, t tc.Get
+	K    byte // s set, r remove, c txn commit, S direct block set, C block commit, g sc.Get, b bc.Get, t tc.Get
 	B, T int
 	Key  string
 }
@@ -143,6 +144,8 @@ func (e event) String() string {
 		return fmt.Sprintf("%s.txn%d.Remove(%s)", bname(e.B), e.T, e.Key)
 	case 'c':
 		return fmt.Sprintf("%s.txn%d.Commit", bname(e.B), e.T)
+	case 'S':
+		return fmt.Sprintf("%s.BlockCache.Set(%s)", bname(e.B), e.Key)
 	case 'C':
 		return fmt.Sprintf("%s.Commit", bname(e.B))
 	case 'g':
@@ -167,6 +170,9 @@ func (u universe) events() []event {
 		evs = append(evs, event{K: 'C', B: b})
 		for _, k := range u.keys {
 			evs = append(evs, event{K: 'g', B: b, Key: k}, event{K: 'b', B: b, Key: k})
+			if u.directSet {
+				evs = append(evs, event{K: 'S', B: b, Key: k})
+			}
 		}
 	}
 	return evs
@@ -294,6 +300,14 @@ func (w *world) apply(e event) (fail string) {
 	case 'r':
 		w.tcs[e.B][e.T].Remove(e.Key)
 		w.ov[e.B][e.T][e.Key] = ent{del: true}
+	case 'S':
+		v := mkVal(w.u.kinds[e.B%len(w.u.kinds)], bname(e.B)+".direct")
+		snap := render(v)
+		w.bcs[e.B].Set(e.Key, v)
+		if w.u.mutateValues {
+			mutate(v)
+		}
+		w.pend[e.B][e.Key] = ent{val: snap}
 	case 'c':
 		w.tcs[e.B][e.T].Commit()
 		for k, v := range w.ov[e.B][e.T] {
